@@ -1824,6 +1824,27 @@ func (ts *Service) handleUpdateTemplate(w http.ResponseWriter, r *http.Request) 
 	// Update all associated tasks
 	err = ts.updateAllAssociatedTasks(original, updated, taskIds)
 	if err != nil {
+		// The tasks have been rolled back, restore the template (and its associations) as well
+		// so that a rejected update does not change the template.
+		if original.ID != updated.ID {
+			if rerr := ts.templates.Delete(updated.ID); rerr != nil {
+				ts.diag.Error("failed to remove new template while rolling back template update", rerr, keyvalue.KV("template", updated.ID))
+			}
+			if rerr := ts.templates.Create(original); rerr != nil {
+				ts.diag.Error("failed to restore template while rolling back template update", rerr, keyvalue.KV("template", original.ID))
+			}
+			for _, taskId := range taskIds {
+				if _, gerr := ts.tasks.Get(taskId); gerr != nil {
+					continue
+				}
+				if rerr := ts.templates.AssociateTask(original.ID, taskId); rerr != nil {
+					ts.diag.Error("failed to restore task association while rolling back template update", rerr,
+						keyvalue.KV("template", original.ID), keyvalue.KV("task", taskId))
+				}
+			}
+		} else if rerr := ts.templates.Replace(original); rerr != nil {
+			ts.diag.Error("failed to restore template while rolling back template update", rerr, keyvalue.KV("template", original.ID))
+		}
 		httpd.HttpError(w, err.Error(), true, http.StatusInternalServerError)
 		return
 	}
